@@ -441,7 +441,10 @@ void runCase(std::size_t i, Ctx& ctx)
 	if (i < nm) {
 		std::size_t n = ctx.thorough ? memLensThorough[i] : memLensQuick[i];
 		MemW h{ ctx, n };
-		auto r = mc::bfs(h, ctx, 2000000, 100000, "memwriter" + std::to_string(n));
+		// the explorer's own tables exceed the 64 MiB environment cap for n = 6; no allocation of the fixed writer is input driven
+		const std::size_t savedCap = mc::alloc_cap; mc::alloc_cap = std::size_t(8) << 30;
+		auto r = mc::bfs(h, ctx, 6000000, 100000, "memwriter" + std::to_string(n));
+		mc::alloc_cap = savedCap;
 		ctx.trace(r.transitions);
 		ctx.outcome(r.states * 31 + n);
 		if (n == 2) ctx.sample("MemoryWriter n=2: states=" + std::to_string(r.states) + " transitions=" + std::to_string(r.transitions) + " e.g. history: Write(1,A) SeekForward(18446744073709551615) Write(2,B)");
